@@ -982,6 +982,22 @@ fn probes(out: &mut Out) {
         r#"permit(principal, action, resource) when { User::"ghost" has age };"#,
         r#"permit(principal, action, resource) when { User::"ghost" in Group::"g0" || User::"ghost".hasTag("k") };"#,
         r#"permit(principal, action == Action::"view", resource) unless { resource.created.offset(context.ttl) > datetime("2024-06-01") };"#,
+        // OPERAND STRICTNESS: the operand `(if principal.prefs.n + 1 > 0 then X else X)` overflows for alice (n = i64::MAX) and is
+        // X for everyone else, under operators whose answer does not depend on the operand's VALUE (decided by its static type,
+        // by a constant, or by the other operand) - the compiled term must still be `none` when the operand errors
+        r#"permit(principal, action, resource) when { (if principal.prefs.n + 1 > 0 then principal else principal) is User };"#,
+        r#"permit(principal, action == Action::"view", resource) when { (if principal.prefs.n + 1 > 0 then resource else resource) is Doc in Group::"g0" };"#,
+        r#"permit(principal, action, resource) when { (if principal.prefs.n + 1 > 0 then principal else principal) has name };"#,
+        r#"permit(principal, action, resource) when { (if principal.prefs.n + 1 > 0 then principal.prefs else principal.prefs) has theme || true };"#,
+        r#"permit(principal, action, resource) when { (if principal.prefs.n + 1 > 0 then "a" else "b") like "*" };"#,
+        r#"permit(principal, action, resource) when { [(if principal.prefs.n + 1 > 0 then 1 else 2)].isEmpty() || (if principal.prefs.n + 1 > 0 then 1 else 2) * 0 == 0 };"#,
+        r#"permit(principal, action, resource) when { (if principal.prefs.n + 1 > 0 then true else false) || true };"#,
+        r#"forbid(principal, action, resource) when { (if principal.prefs.n + 1 > 0 then true else false) && false };"#,
+        r#"permit(principal, action, resource) when { (if principal.prefs.n + 1 > 0 then principal else principal) in Group::"g0" || (if principal.prefs.n + 1 > 0 then principal else principal) == principal };"#,
+        r#"permit(principal, action, resource) when { (if principal.prefs.n + 1 > 0 then principal else principal).hasTag("k") || true };"#,
+        r#"permit(principal, action, resource) when { if (if principal.prefs.n + 1 > 0 then true else true) then true else true };"#,
+        r#"permit(principal, action, resource) when { [principal, (if principal.prefs.n + 1 > 0 then principal else principal)].contains(principal) };"#,
+        r#"permit(principal, action, resource) when { {a: (if principal.prefs.n + 1 > 0 then 1 else 2), b: true}.b };"#,
     ]
     .iter()
     .map(|s| s.to_string())
